@@ -418,7 +418,7 @@ def implItemOfTraitItem (href : Option T) : T → Gen T
       match href with
       | none => .ok (.node "ImplItem::Fn" [] [ignAttrs, .node "Visibility::Inherited" [] [], tNone, sig, .node "Dummy" [] []])
       | some h =>
-        if variadic != tNone then .unmodelled else
+        if variadic != tNone || a != tNone then .unmodelled else     -- variadic; `async fn` (delegated with `.await` since /repo 81f363f)
         match allSome (inputs.map fnArgAsExpr) with
         | none => .unmodelled
         | some args =>
@@ -581,7 +581,7 @@ def delegateImplItem (href : T) : T → Gen T
       let (q, p) := selfAsHelperPath href id
       .ok (.node "ImplItem::Type" [] [a, v, d, id, g, tyPath q p])
   | .node "ImplItem::Fn" [] [a, v, d, .node "Signature" [] [c, as_, u, abi, id, g, .node "List" [] inputs, variadic, out], _] =>
-      if variadic != tNone then .unmodelled else
+      if variadic != tNone || as_ != tNone then .unmodelled else     -- variadic; `async fn` (delegated with `.await` since /repo 81f363f)
       match allSome (inputs.map fnArgAsExpr) with
       | none => .unmodelled
       | some args =>
